@@ -19,6 +19,8 @@ import (
 
 var R = stats.New("C03")
 
+func init() { gen.Counted = true }
+
 func TestMain(m *testing.M) { R.Main(m) }
 
 type Case struct {
